@@ -239,7 +239,7 @@ def r10_2(ctx):
     if not store_nodes:
         ctx.violation(f.fq, "no _shape store", f.where, "_LiveRender.__rich_console__ never records the shape of the frame it emits: the next print cannot erase it")
         return
-    loops = [n for n in g.stmt_nodes() if n.kind == "for" and "loop_last" in norm(n.stmt.iter)]
+    loops = [n for n in g.stmt_nodes() if n.kind == "for" and ("loop_last" in norm(n.stmt.iter) or "loop_first" in norm(n.stmt.iter))]
     if not loops:
         raise AnchorVanished("_LiveRender.__rich_console__: frame emission loop over loop_last(lines) not found")
     for S in store_nodes:
@@ -289,7 +289,7 @@ def r10_2(ctx):
     f2 = ctx.repo.fn("live_render:LiveRender.__rich_console__")
     g2 = cfgmod.build(f2.node)
     rd2 = g2.reaching_defs(weak=True)
-    loops2 = [n for n in g2.stmt_nodes() if n.kind == "for" and "loop_last" in norm(n.stmt.iter)]
+    loops2 = [n for n in g2.stmt_nodes() if n.kind == "for" and ("loop_last" in norm(n.stmt.iter) or "loop_first" in norm(n.stmt.iter))]
     if not loops2:
         raise AnchorVanished("LiveRender.__rich_console__: emission loop not found")
     for L in loops2:
@@ -334,7 +334,19 @@ def r10_2(ctx):
                                 form_b = True
                     elif isinstance(tv, ast.Tuple):
                         detail = f"_shape is stored as `{norm(tv)}` but the frame is shaped to ({norm(wn)}, {norm(hn)})"
-            if not (form_a or form_b):
+            form_c = False
+            if not (form_a or form_b) and isinstance(wn, ast.Name) and isinstance(hn, ast.Name):
+                # `self._shape = X` and `w, h = X` from the same value X (same reaching definitions of X at both places)
+                for dd in rd2.get(d, {}).get(wn.id, set()):
+                    ust = g2.nodes[dd].stmt
+                    if isinstance(ust, ast.Assign) and isinstance(ust.targets[0], ast.Tuple) and [norm(e) for e in ust.targets[0].elts] == [wn.id, hn.id] and isinstance(ust.value, ast.Name):
+                        x = ust.value.id
+                        for ss in shape_stores:
+                            if isinstance(ss.stmt.value, ast.Name) and ss.stmt.value.id == x and rd2.get(ss.id, {}).get(x) == rd2.get(dd, {}).get(x) and g2.dominated_by(L.id, {ss.id}):
+                                later = [s2 for s2 in shape_stores if s2 is not ss and s2.id in g2.reach([ss.id]) and L.id in g2.reach([s2.id])]
+                                if not later:
+                                    form_c = True
+            if not (form_a or form_b or form_c):
                 ok = False
                 detail = detail or f"set_shape({norm(wn)}, {norm(hn)}) is not the stored _shape"
         ctx.check(ok, f2.fq, f"for ... in {norm(L.stmt.iter)}", f"{f2.module.relpath}:{L.lineno}", "emitted lines are set_shape()d to the stored (width, height)",
@@ -381,7 +393,7 @@ def r10_3(ctx):
         f = ctx.repo.fn(spec)
         ok = False
         for lp in walk_local(f.node):
-            if isinstance(lp, ast.For) and "loop_last" in norm(lp.iter) and isinstance(lp.target, ast.Tuple):
+            if isinstance(lp, ast.For) and ("loop_last" in norm(lp.iter) or "loop_first" in norm(lp.iter)) and isinstance(lp.target, ast.Tuple):
                 lastv = norm(lp.target.elts[0])
                 nl_guarded = nl_unguarded = 0
                 for b in lp.body:
@@ -393,7 +405,7 @@ def r10_3(ctx):
                 ok = nl_guarded == 1 and nl_unguarded == 0
                 ctx.check(ok, f.fq, f"for {norm(lp.target)} in {norm(lp.iter)}", f"{f.module.relpath}:{lp.lineno}", "newline emitted between lines only (no trailing newline)",
                           "the frame writer emits a newline after the last line (or none between lines): the cursor ends one line off and position_cursor's h-1 ups miss the top of the frame")
-        if not ok and not any(isinstance(lp, ast.For) and "loop_last" in norm(lp.iter) for lp in walk_local(f.node)):
+        if not ok and not any(isinstance(lp, ast.For) and ("loop_last" in norm(lp.iter) or "loop_first" in norm(lp.iter)) for lp in walk_local(f.node)):
             raise AnchorVanished(f"{spec}: loop over loop_last(lines) not found")
 
 
